@@ -24,7 +24,7 @@ RULE = (
     "violation. Non-trivial: a parameterised macro used >= 2 times with different actuals, or >= 2 macro kinds combined; distinct by canonical hash."
 )
 ASSUMPTIONS = ["only the supported use forms are generated (string macro as key with an operand list, formals in key position, item macro with sibling times are not)", "macro names pairwise not substrings of one another"]
-FLOORS = {"has-deref": 0.1, "kind=item": 0.1, "kind=operand": 0.1, "kind=substring": 0.1, "kind=times-body": 0.02, "kind=param": 0.15, "extra-files": 0.3, "multi-use": 0.3}
+FLOORS = {"kind=nested-pass-through": 0.02, "kind=independent-uses": 0.02, "has-deref": 0.08, "kind=item": 0.1, "kind=operand": 0.1, "kind=substring": 0.1, "kind=times-body": 0.02, "kind=param": 0.15, "extra-files": 0.3, "multi-use": 0.3}
 
 
 def budget(tier):
@@ -91,6 +91,30 @@ def cases(draw):
             lib = [{"name": "@lib_", "pattern": [{"mov": ["@inner_", draw(st.sampled_from(["rax", "%r8"]))]}]}]
             use = ["@lib_", "ret"]
         return {"pair": True, "lib": lib, "use": use, "inner": [inner_a, inner_b], "repeat_first": draw(st.booleans())}
+    form = draw(st.integers(0, 11))
+    if form == 0:
+        # a parameterised macro hands its own formal parameter on to a second parameterised macro, under the same name
+        # (the repository's own macro files use `reg` everywhere); written out by hand: xor A, A ; push A
+        f = draw(st.sampled_from(["reg", "r", "macro-arg1", "x"]))
+        actual = draw(st.sampled_from(["rax", "%r8d", "0x10", 0, "e"]))
+        inner = {"name": "@yinner_", "args": [f], "pattern": [{"xor": [f, f]}]}
+        second = draw(st.sampled_from([{"push": [f]}, {"mov": [f, "rbx"]}, "ret"]))
+        outer = {"name": "@youter_", "args": [f], "pattern": [{"$and": [{"@yinner_": None, f: f}, second]}]}
+        def sub_(n_):
+            return {k_: [actual if o_ == f else o_ for o_ in v_] for k_, v_ in n_.items()} if isinstance(n_, dict) else n_
+        inl = [{"$and": [{"xor": [actual, actual]}, sub_(second)]}]
+        macros_ = [outer, inner]
+        in_file, files = split_definitions(draw, macros_)
+        return {"handmade": "nested-pass-through", "factored": [{"@youter_": None, f: actual}], "inlined": inl, "macros_in_file": in_file, "macro_files": files}
+    if form == 1:
+        # compositionality, no reference needed: the regex of [X, "@m"] is the regex of [X] followed by that of ["@m"], whatever
+        # a `times` on the invocation X of an arg-less tree macro means - one use must not change what another use compiles to
+        body = draw(st.sampled_from([[{"$or": ["push", "pop"]}], [{"mov": ["rax", "rbx"]}], ["nop"], [{"$and": ["push", "pop"]}]]))
+        t = draw(st.sampled_from([2, 3, {"min": 1, "max": 2}, {"min": 0, "max": 3}]))
+        spelling = draw(st.sampled_from(["inside", "sibling", "sibling-first"]))
+        x = {"@ytree_": {"times": t}} if spelling == "inside" else {"@ytree_": [], "times": t} if spelling == "sibling" else {"times": t, "@ytree_": []}
+        other = draw(st.sampled_from(["@ytree_", "@ytree_", {"$or": ["@ytree_", "ret"]}]))
+        return {"handmade": "independent-uses", "x": x, "other": other, "x_first": draw(st.booleans()), "macros_in_file": [{"name": "@ytree_", "pattern": body}], "macro_files": []}
     L, pattern = draw(base_rule())
     factored, macros, kinds = factor(draw, pattern)
     assume(macros)
@@ -118,7 +142,9 @@ def cases(draw):
                         factored.append({"mov": [m["name"]]})
                     multi = True
             else:
-                factored.append({"add": ["pre" + m["name"] + "x"]})
+                how = draw(st.integers(0, 2))
+                use = "pre" + m["name"] + "x" if how == 0 else "pre" + m["name"] + m["name"] + "x" if how == 1 else m["name"] + "q" + m["name"]
+                factored.append({"add": [use]})  # also the same string macro twice inside one name
                 multi = True
     if draw(st.integers(0, 5)) == 0:
         # a string macro whose body is a regex fragment with a top-level alternation, spliced into a longer name: inlining is
@@ -273,9 +299,53 @@ def synth_listing(pattern, pick=0):
     return render(L)
 
 
+def evaluate_handmade(case):
+    ev = Eval()
+    sc = jasm_io.scratch()
+    paths = [sc.write(f"macros_{q}.yaml", jasm_io.dump_yaml({"macros": f})) for q, f in enumerate(case["macro_files"])]
+    mf = case["macros_in_file"] or None
+    ev.tags = ["kind=" + case["handmade"]] + (["extra-files"] if paths else [])
+    ev.nontrivial = True
+    if case["handmade"] == "nested-pass-through":
+        rf = jasm_io.compile_rule(jasm_io.make_doc(case["factored"], macros=mf), macros=paths or None)
+        ri = jasm_io.compile_rule(jasm_io.make_doc(case["inlined"]))
+        ev.subcases = 2
+        if ri[0] != "ok":
+            return ev
+        if rf[0] != "ok":
+            ev.dev("factored-rule-rejected", error=list(rf[1:]), factored=case["factored"])
+        elif rf[1] != ri[1]:
+            ev.dev("nested-call-differs-from-inlining", factored_regex=rf[1][:400], inlined_regex=ri[1][:400])
+        ev.sample = {"factored": case["factored"], "inlined": case["inlined"], "macros_in_file": case["macros_in_file"], "macro_files": case["macro_files"]}
+        return ev
+    x, other = case["x"], case["other"]
+    full = [x, other] if case["x_first"] else [other, x]
+    rs = {}
+    for nm, pat in (("full", full), ("x", [x]), ("other", [other])):
+        rs[nm] = jasm_io.compile_rule(jasm_io.make_doc(pat, macros=mf), macros=paths or None)
+    ev.subcases = 3
+    ev.sample = {"rule": full, "macros": case["macros_in_file"]}
+    if any(r[0] == "inconclusive" for r in rs.values()):
+        ev.inconclusive += 1
+        return ev
+    if len({r[0] for r in rs.values()}) > 1:
+        ev.dev("uses-compile-alone-but-not-together", outcomes={k: list(v[:2]) for k, v in rs.items()})
+        return ev
+    if rs["full"][0] != "ok":
+        return ev
+    def inner(r):
+        return r[3:-1] if r.startswith("(?:") and r.endswith(")") else r
+    parts = [inner(rs["x"][1]), inner(rs["other"][1])] if case["x_first"] else [inner(rs["other"][1]), inner(rs["x"][1])]
+    if inner(rs["full"][1]) != "".join(parts):
+        ev.dev("one-use-changes-another", rule=full, together=rs["full"][1][:400], x_alone=rs["x"][1][:200], other_alone=rs["other"][1][:200])
+    return ev
+
+
 def evaluate(case):
     if case.get("pair"):
         return evaluate_pair(case)
+    if case.get("handmade"):
+        return evaluate_handmade(case)
     ev = Eval()
     macros = [m for f in case["macro_files"] for m in f] + case["macros_in_file"]
     inlined = inline_all(copy.deepcopy(case["factored"]), macros)
